@@ -44,7 +44,7 @@ extern "C" {
 
 /* values of the URCU_VERIF source hooks (owned by vrt; one build serves all values) */
 extern unsigned long vrt_param_qs_attempts, vrt_param_wait_attempts, vrt_param_defer_queue_size,
-	vrt_param_min_partition_order, vrt_param_count_commit_order, vrt_param_init_reader_count;
+	vrt_param_min_partition_order, vrt_param_count_commit_order, vrt_param_init_reader_count, vrt_param_affinity_period;
 
 /* ---- entry points implemented in vrt.c ------------------------------------------------------ */
 void vrt_fence(void);
@@ -79,6 +79,7 @@ unsigned vrt_sleep(unsigned sec);
 int vrt_sched_yield(void);
 int vrt_sched_getcpu(void);
 int vrt_sched_setaffinity(pid_t pid, size_t sz, const cpu_set_t *set);
+int vrt_pthread_setaffinity_np(pthread_t th, size_t sz, const cpu_set_t *set);
 long vrt_sysconf(int name);
 void *vrt_malloc(size_t n);
 void *vrt_calloc(size_t n, size_t m);
@@ -236,6 +237,7 @@ DIR *vrt_opendir(const char *path);
 #define sched_yield		vrt_sched_yield
 #define sched_getcpu		vrt_sched_getcpu
 #define sched_setaffinity	vrt_sched_setaffinity
+#define pthread_setaffinity_np	vrt_pthread_setaffinity_np
 #define sysconf			vrt_sysconf
 #define malloc			vrt_malloc
 #define calloc			vrt_calloc
